@@ -561,6 +561,16 @@ static void sec_nearparallel(Ctx& c, uint64_t idx) {
   flow(c, P, par, x0, y0, false);
 }
 
+// coincident lines: displacement d along X at which X passes through the starting point of Y, X(d) = Y(0) (coarse scan of X every
+// 500 km over +-0.6 circumference, then Newton projection on the reference line).  The coincidence line is y = c (x - d).
+static bool coincidence_offset(const EllCfg& e, Pair& P, double& d) {
+  ld Y0[3], D[3], PX[3], DX[3]; P.rY.eval(0, Y0, D);
+  const double h = 5e5 * e.a / gh::WGS84_A; double best = HUGE_VAL; ld xb = 0;
+  for (double x = -0.6 * e.circ; x <= 0.6 * e.circ; x += h) { P.rX.eval((ld)x, PX, DX); double g = (double)ref::dist3(PX, Y0); if (g < best || (g < best + 1e-3 && std::fabs(x) < std::fabs((double)xb))) { best = g; xb = x; } }
+  if (!project_on_Y(P.rX, Y0, xb, PX, DX)) return false;
+  if ((double)ref::dist3(PX, Y0) > 1e-6 * e.a / gh::WGS84_A) return false;
+  d = (double)xb; return true;
+}
 // first zero of the reduced length m12(s) along the reference geodesic from (lat, azi), s > 0 (dir = +1) or s < 0 (dir = -1)
 static double conjugate_dist(const EllCfg& e, double lat, double azi, int dir) {
   ref::GeodLine<ld> L(*e.El, (ld)lat, (ld)azi, std::signbit(azi));
@@ -635,15 +645,37 @@ static void sec_coincident(Ctx& c, uint64_t idx) {
   Pair P(e, a, b, cc, d, f, g, "coincident/" + geo + "/" + e.name);
   c.count(P.cls, P.hash());
   const Intersect& I = *e.in; int ci = 99;
-  double x0 = r.coin() ? 0 : r.uniform(-1, 1) * e.circ, y0 = r.coin() ? 0 : r.uniform(-1, 1) * e.circ;
+  double x0 = r.coin(0.25) ? 0 : r.uniform(-1, 1) * e.circ, y0 = r.coin(0.25) ? 0 : r.uniform(-1, 1) * e.circ;
   Intersect::Point p = I.Closest(P.lX, P.lY, Intersect::Point(x0, y0), &ci);
+  const int sense = expect;
   J w = P.j().f("p0x", x0).f("p0y", y0).f("x", p.first).f("y", p.second).i("c", ci).i("expected_c", expect);
+  { int c2 = 99; Intersect::Point p2 = I.Closest(a, b, cc, d, f, g, Intersect::Point(x0, y0), &c2);
+    if (!(vh::same_bits(p.first, p2.first) && vh::same_bits(p.second, p2.second) && ci == c2)) c.viol("law:C17/intersect/Closest/overloads-differ", P.cls, J(w).f("x2", p2.first).f("y2", p2.second)); }
   bool okm = member(c, P, "Closest(coincident)", p.first, p.second, true, w);
+  // OPTIMALITY on coincident lines: every (x, c (x - dd)) is an intersection, so the closest one to p0 is at L1 distance
+  // <= |y0 - c (x0 - dd)| (self-crossings / further laps of a closed line can only be closer)
+  double dd = 0, Lline = -1; const double Tl = 4 * P.Tgap(x0, y0) + 4 * P.Tgap(p.first, p.second);
+  if (coincidence_offset(e, P, dd)) {
+    Lline = std::fabs(y0 - sense * (x0 - dd));
+    double dl = L1(p.first, p.second, x0, y0);
+    c.obs("intersect Closest(coincident): (L1 returned - L1 of the coincidence line from p0) / tolerance [" + e.name + "]", (dl - Lline) / Tl, w);
+    c.event("coincident Closest judged against the coincidence line");
+    if (okm && dl > Lline + Tl) c.viol("oracle:C17/intersect/Closest/coincident-not-the-L1-minimum", P.cls, J(w).f("L1_returned", dl).f("L1_line", Lline).f("offset_d", dd).f("tol", Tl));
+  } else c.herr("could not locate the start of Y on X for a coincident pair");
   if (okm) { int ct = c_from_tangents(P, p.first, p.second); if (ct == 0) c.event("coincident lines: returned a genuine (self-)crossing, c = 0 expected"); else if (ct != expect && ct != 3 * expect) c.herr("coincident construction has the wrong sense"); expect = ct; }
   if (okm && !c_ok(ci, expect)) c.viol("oracle:C17/intersect/Closest/coincidence-indicator", P.cls, w);
   c.event("coincident Closest judged");
-  { double md = r.uniform(0, 1.5) * e.circ; std::vector<int> cv; std::vector<Intersect::Point> v = I.All(P.lX, P.lY, md, cv, Intersect::Point(x0, y0));
+  { double md = r.coin(0.3) && Lline >= 0 ? Lline + r.logu(1, 3e6) : r.uniform(0, 1.5) * e.circ; std::vector<int> cv, cv2; std::vector<Intersect::Point> v = I.All(P.lX, P.lY, md, cv, Intersect::Point(x0, y0));
+    std::vector<Intersect::Point> v2 = I.All(a, b, cc, d, f, g, md, cv2, Intersect::Point(x0, y0));
     double prev = -1; J wa = J(w).f("maxdist", md).i("returned", (long long)v.size());
+    { bool same = v.size() == v2.size() && cv == cv2; for (size_t k = 0; same && k < v.size(); ++k) same = vh::same_bits(v[k].first, v2[k].first) && vh::same_bits(v[k].second, v2[k].second);
+      if (!same) c.viol("law:C17/intersect/All/overloads-differ", P.cls, wa); }
+    // the closest point of the coincidence line is within maxdist => All must list an intersection at most that far from p0
+    if (Lline >= 0 && Lline + Tl <= md) {
+      c.event("coincident All judged against the coincidence line");
+      if (v.empty() || Intersect::Dist(v[0], Intersect::Point(x0, y0)) > Lline + Tl)
+        c.viol("oracle:C17/intersect/All/coincident-missed-the-closest-intersection", P.cls, J(wa).f("L1_line", Lline).f("offset_d", dd).f("first_dist", v.empty() ? -1.0 : Intersect::Dist(v[0], Intersect::Point(x0, y0))));
+    }
     for (size_t k = 0; k < v.size(); ++k) { double dd = Intersect::Dist(v[k], Intersect::Point(x0, y0));
       if (!(dd <= md)) c.viol("law:C17/intersect/All/point-beyond-maxdist", P.cls, J(wa).i("k", (long long)k));
       if (dd < prev) c.viol("law:C17/intersect/All/not-sorted-by-distance", P.cls, J(wa).i("k", (long long)k)); prev = dd;
